@@ -321,6 +321,43 @@ type wgen struct {
 
 func (g *wgen) scalarType() reflect.Type { return pick(g.r, scalarTypes) }
 
+// key types of maps whose elements are walked (paths are named by the key's rendering)
+var mapKeyTypes = []reflect.Type{
+	reflect.TypeOf(""), reflect.TypeOf(""), reflect.TypeOf(int(0)), reflect.TypeOf(int(0)), reflect.TypeOf(KS("")),
+	reflect.TypeOf(uint8(0)), reflect.TypeOf(uint32(0)), reflect.TypeOf(int64(0)), reflect.TypeOf(true), reflect.TypeOf(float64(0)),
+}
+
+// elemOf: T, *T, **T or ***T
+func (g *wgen) elemOf(st reflect.Type) reflect.Type {
+	switch g.r.IntN(10) {
+	case 0, 1, 2, 3:
+		return st
+	case 4, 5, 6:
+		return reflect.PointerTo(st)
+	case 7, 8:
+		return reflect.PointerTo(reflect.PointerTo(st))
+	}
+	return reflect.PointerTo(reflect.PointerTo(reflect.PointerTo(st)))
+}
+
+// collOf: a slice, array or map (any key kind) of T / pointers to T, possibly nested once
+func (g *wgen) collOf(st reflect.Type) reflect.Type {
+	e := g.elemOf(st)
+	switch g.r.IntN(10) {
+	case 0, 1, 2:
+		return reflect.SliceOf(e)
+	case 3:
+		return reflect.ArrayOf(1+g.r.IntN(2), e)
+	case 4, 5, 6:
+		return reflect.MapOf(pick(g.r, mapKeyTypes), e)
+	case 7:
+		return reflect.SliceOf(reflect.SliceOf(e))
+	case 8:
+		return reflect.MapOf(pick(g.r, mapKeyTypes), reflect.SliceOf(e))
+	}
+	return reflect.PointerTo(reflect.SliceOf(e))
+}
+
 func (g *wgen) nestedType(depth int) reflect.Type {
 	var st reflect.Type
 	if chance(g.r, 0.25) {
@@ -343,10 +380,24 @@ func (g *wgen) nestedType(depth int) reflect.Type {
 		return reflect.ArrayOf(1+g.r.IntN(2), st)
 	case 9:
 		return reflect.MapOf(reflect.TypeOf(""), st)
-	case 10:
-		return reflect.MapOf(reflect.TypeOf(int(0)), reflect.PointerTo(st))
 	}
-	return reflect.SliceOf(reflect.SliceOf(st))
+	return g.collOf(st)
+}
+
+// fillKey sets a map key of any of mapKeyTypes' kinds
+func fillKey(r *rand.Rand, k reflect.Value) {
+	switch k.Kind() {
+	case reflect.String:
+		k.SetString(pick(r, []string{"a", "b", "k", "中", ""}))
+	case reflect.Int, reflect.Int8, reflect.Int16, reflect.Int32, reflect.Int64:
+		k.SetInt(int64(r.IntN(6) - 1))
+	case reflect.Uint, reflect.Uint8, reflect.Uint16, reflect.Uint32, reflect.Uint64:
+		k.SetUint(uint64(pick(r, []int{0, 1, 2, 3, 200})))
+	case reflect.Bool:
+		k.SetBool(chance(r, 0.5))
+	case reflect.Float32, reflect.Float64:
+		k.SetFloat(pick(r, []float64{0, 0.5, 1, 2.25, -3, 1e21, 1e-7}))
+	}
 }
 
 func (g *wgen) fieldType(depth int) reflect.Type {
@@ -514,11 +565,7 @@ func (g *wgen) fill(v reflect.Value, depth int) {
 			m := reflect.MakeMap(v.Type())
 			for i := 0; i < n; i++ {
 				k := reflect.New(v.Type().Key()).Elem()
-				if k.Kind() == reflect.String {
-					k.SetString(pick(r, []string{"a", "b", "k", "中", ""}))
-				} else {
-					k.SetInt(int64(r.IntN(5)))
-				}
+				fillKey(r, k)
 				e := reflect.New(v.Type().Elem()).Elem()
 				g.fill(e, depth+1)
 				m.SetMapIndex(k, e)
@@ -731,6 +778,14 @@ func walkerCase(r *rand.Rand, p walkProfile) Case {
 	// top-level shape
 	x := r.Float64()
 	switch {
+	case x < p.pTopColl && chance(r, 0.3):
+		// any collection shape: slices / arrays / maps (every key kind) of T, *T, **T, ***T, nested once
+		cv := reflect.New(g.collOf(t)).Elem()
+		for k := 0; k < 3 && cv.IsZero(); k++ {
+			g.fill(cv, 0)
+		}
+		call.src = cv.Interface()
+		tags = append(tags, "src:coll-any", "coll:"+cv.Kind().String())
 	case x < p.pTopColl*0.35:
 		n := r.IntN(4)
 		s := reflect.MakeSlice(reflect.SliceOf(reflect.PointerTo(t)), n, n)
@@ -928,7 +983,25 @@ func flatMapCase(r *rand.Rand, o ruleOpts) Case {
 		rm = valid.RM{}
 	}
 	mk := func() interface{} {
-		switch r.IntN(5) {
+		switch r.IntN(7) {
+		case 5, 6:
+			// every element kind: bool, floats, unsigned, small ints, slices, arrays, pointers, named strings
+			et := pick(r, []reflect.Type{reflect.TypeOf(true), reflect.TypeOf(float64(0)), reflect.TypeOf(float32(0)),
+				reflect.TypeOf(uint8(0)), reflect.TypeOf(uint64(0)), reflect.TypeOf(int8(0)), reflect.TypeOf([]string(nil)),
+				reflect.TypeOf([]int(nil)), reflect.TypeOf((*string)(nil)), reflect.TypeOf([2]int{}), reflect.TypeOf(KS(""))})
+			g := &wgen{r: r}
+			m := reflect.MakeMap(reflect.MapOf(reflect.TypeOf(""), et))
+			for i, n := 0, r.IntN(4); i < n; i++ {
+				e := reflect.New(et).Elem()
+				g.fill(e, 0)
+				m.SetMapIndex(reflect.ValueOf(pick(r, flatKeys)), e)
+			}
+			if chance(r, 0.3) {
+				sl := reflect.MakeSlice(reflect.SliceOf(m.Type()), 1, 1)
+				sl.Index(0).Set(m)
+				return sl.Interface()
+			}
+			return m.Interface()
 		case 0:
 			m := map[string]interface{}{}
 			for i, n := 0, r.IntN(4); i < n; i++ {
